@@ -60,13 +60,16 @@ def ops(tid):
 
 def edits():
     """list of (label, function(table dict) -> new table dict)"""
-    out = [('bundled', lambda t: dict(t))]
+    out = [('bundled', lambda t: dict(t)), ('empty', lambda t: {}), ('only-one-entry', lambda t: {E.n2i('BSC_getpid'): 'BSC_getpid'})]
     dec = [n for n in WORK if n != UNDECODABLE]
     for n in WORK:
         out.append((f'remove:{n}', lambda t, n=n: {k: v for k, v in t.items() if v != n}))
     for n in dec:
         out.append((f'move:{n}', lambda t, n=n: {**{k: v for k, v in t.items() if v != n}, FRESH[0]: n}))
         out.append((f'to-undecodable:{n}', lambda t, n=n: {k: (UNDECODABLE if v == n else v) for k, v in t.items()}))
+    # a second id carrying the same name (tables are keyed by id): the stream then uses the NEW id for that name
+    for n in dec:
+        out.append((f'alias-used:{n}', lambda t, n=n: {**t, FRESH[1]: n}))
     for a, b in itertools.combinations(dec, 2):
         def swap(t, a=a, b=b):
             return {k: (b if v == a else a if v == b else v) for k, v in t.items()}
@@ -126,7 +129,11 @@ def judge_supplied(opseq, edit_label, edit_fn):
     T = default_table()
     ids = {n: E.n2i(n) for n in WORK}
     T2 = edit_fn(T)
+    if edit_label.startswith('alias-used:'):
+        ids = dict(ids)
+        ids[edit_label.split(':')[1]] = FRESH[1]     # the stream carries the alias id; the reference renames it back
     recs, meta = stream_records(opseq, ids)
+    ids = {n: E.n2i(n) for n in WORK}
     blob = B.v2([(1, 10, 'A'), (2, 20, 'B')], 0, recs)
     bad = []
     # listing names
@@ -189,7 +196,7 @@ class C19(Check):
             '24-kind sub-grammar (repeated ids included), each with LF and CRLF, with and without final newline; oracle: '
             'mapping == independent parse (last occurrence wins). (B) supplied tables: the bundled table and every single edit '
             'over a 12-name working set (remove a name, move a decodable name to a fresh id, point it at an undecodable name, '
-            'swap two decodable names: 101 tables) x all sequences of <=2 (quick) / <=3 (thorough) operations over 6 operation '
+            'swap two decodable names, add a second id for a name and use it in the stream, the empty table, a one-entry table: 114 tables) x all sequences of <=2 (quick) / <=3 (thorough) operations over 6 operation '
             'kinds x 2 threads; oracle: listing shows NAME (0xid) from the supplied table or bare hex; traces(stream, T\') == '
             'traces(stream with ids renamed through T\', bundled table) in type, text and window; no trace for an absent id. '
             'non-trivial = edited table whose edit touches a name used by the stream.')
